@@ -15,7 +15,13 @@ import itertools
 import math
 from fractions import Fraction
 
-import numpy as np
+import os
+
+# small dense matrices only: BLAS threads cost more than they give and oversubscribe a shared machine
+for _v in ('OPENBLAS_NUM_THREADS', 'OMP_NUM_THREADS', 'MKL_NUM_THREADS'):
+    os.environ.setdefault(_v, '1')
+
+import numpy as np  # noqa: E402
 
 from common import Stream, budget, rng_for, to_gq, from_gq
 
